@@ -1052,6 +1052,9 @@ class XsdElement(XsdComponent, ParticleMixin,
                 elem.text = self.fixed
             elif self.default is not None and context.use_defaults:
                 elem.text = self.default
+            elif validation != 'skip' and not xsd_type.is_valid(''):
+                # No text means an empty element, that has to be valid for the type
+                errors.append("empty content is not valid for the element's type.")
 
         elif isinstance(xsd_type.content, XsdSimpleType):
             if xsd_type.content.max_length == 0:
